@@ -82,6 +82,8 @@ def run_server_part(ctx, HEADER, corr):
     finally:
         srv.close()
     _encodings(ctx, g)
+    _generated_uids(ctx, g)
+    _read_faults(ctx, g)
     for k, v in g.features.items():
         ctx.count("grammar:" + k, v)
 
@@ -750,3 +752,216 @@ def _encodings(ctx, g):
                     fail("enc-export", "[encoding] stock=%s request=%s: export on a fresh Application answers %s" % (stock, request, st), dict(config=conf["encoding"], coll=coll))
         finally:
             srv.close()
+
+
+# ---------------------------------------------------------------------------------------------------------------
+# every stored item of a collection, one by one: served once, re-read cold, re-uploaded
+# ---------------------------------------------------------------------------------------------------------------
+def item_hrefs(srv, coll):
+    st, ms = srv.propfind(coll, depth="1")
+    return sorted(h for h in ms if h.rstrip("/") != coll.rstrip("/")) if st == 207 else None
+
+
+def sweep_items(ctx, srv, coll, fail, replay0, content_type):
+    """For every item of `coll`: GET; exactly one non-empty UID; the same text and ETag once the item cache is gone (what is
+    served is what the FILE holds); re-uploading the served text is accepted and gives the same ETag.  Returns {href: text}."""
+    hrefs = item_hrefs(srv, coll)
+    if hrefs is None:
+        fail("sweep-list", "PROPFIND Depth:1 on %s fails" % coll, replay0)
+        return {}
+    served = {}
+    for href in hrefs:
+        st, h, b = srv.request("GET", href)
+        if st != 200:
+            fail("sweep-get", "GET %s of a listed object answers %s" % (href, st), dict(replay0, href=href))
+            continue
+        text = b.decode("utf-8")
+        served[href] = (text, h.get("ETag"))
+        try:
+            tops = X.parse_tree(text)
+        except X.IParseError as e:
+            fail("sweep-parse", "stored object %s does not parse: %s" % (href, e), dict(replay0, href=href, served=text))
+            continue
+        for top in tops:
+            for holder in ([top] if top[0] == "VCARD" else [s for s in top[2] if s[0] in ("VEVENT", "VTODO", "VJOURNAL")]):
+                uids = [v for _, n, _, v in holder[1] if n == "UID"]
+                if len(uids) != 1 or uids[0] == "":
+                    fail("sweep-uid", "stored object %s: a %s carries the UID lines %r (exactly one non-empty UID expected)" % (href, holder[0], uids),
+                         dict(replay0, href=href, served=text))
+    purge_item_cache(srv.folder)
+    for href, (text, etag) in served.items():
+        st, h, b = srv.request("GET", href)
+        if st != 200 or b.decode("utf-8") != text or h.get("ETag") != etag:
+            fail("sweep-cold", "object %s once the item cache is gone: status %s, %s" % (href, st, "other text/ETag" if st == 200 else "not served"),
+                 dict(replay0, href=href, served=text, cold=b.decode("utf-8", "replace") if st == 200 else None))
+    for href, (text, etag) in served.items():
+        st, h, _ = srv.request("PUT", href, data=text, CONTENT_TYPE=content_type)
+        if st != 201 or h.get("ETag") != etag:
+            if ws_only_continuation(text):
+                ctx.violation("re-upload of the served text is not a fixed point (white-space-only continuation line)",
+                              dict(replay0, href=href, served=text, status=st), signature="C14:fold-ws")
+            else:
+                fail("sweep-fixed", "the served text of %s, uploaded again, gives status %s%s" % (href, st, "" if st != 201 else " and another ETag"),
+                     dict(replay0, href=href, served=text))
+    return {h: t for h, (t, _) in served.items()}
+
+
+def without_uid_facts(c):
+    return collections.Counter({k: v for k, v in c.items() if k[1] != "UID"})
+
+
+def _generated_uids(ctx, g):
+    """Whole-collection uploads in which some objects have no UID property or an empty one: the server gives them a UID;
+    everything else must come back, every stored object must carry exactly one UID and be a fixed point."""
+    rng = ctx.rng
+    first = {}
+
+    def fail(kind, what, replay):
+        if kind not in first:
+            first[kind] = True
+            ctx.violation(what, replay)
+    srv = new_server()
+    try:
+        for wi in range(ctx.n(4, 24)):
+            card = wi % 2 == 0
+            n = rng.choice([2, 3, 5])
+            modes = [rng.choice(["keep", "none", "empty"]) for _ in range(n)]
+            modes[rng.randrange(n)] = "empty" if wi % 4 < 2 else "none"
+            if card:
+                trees = []
+                for i, m in enumerate(modes):
+                    t = g.card_object("gu-%s-%d" % (g.ident(4), i))
+                    lines = [l for l in t[1] if l[1] != "UID"] if m != "keep" else list(t[1])
+                    if m == "empty":
+                        lines.insert(rng.randrange(1, len(lines) + 1), (None, "UID", (), ""))
+                    trees.append((t[0], lines, t[2]))
+                text = "".join(g.render(t, style=dict(eol="\r\n", fold="75", lower=False, quote_all=False)) for t in trees)
+                ctype, coll = "text/vcard", "/u/gab%d/" % wi
+            else:
+                tree, _ = build_whole_calendar(g, rng, n)
+                subs, k = [], 0
+                seen_uids = {}
+                for s_ in tree[2]:
+                    if s_[0] in ("VEVENT", "VTODO", "VJOURNAL"):
+                        uid = main_uid(("x", [], [s_]))
+                        m = seen_uids.setdefault(uid, modes[k % n])
+                        k += 1
+                        # only single-component objects lose their UID (an override without UID could not be re-attached)
+                        if m != "keep" and sum(1 for y in tree[2] if y[0] == s_[0] and main_uid(("x", [], [y])) == uid) == 1:
+                            lines = [l for l in s_[1] if l[1] != "UID"]
+                            if m == "empty":
+                                lines.append((None, "UID", (), ""))
+                            s_ = (s_[0], lines, s_[2])
+                    subs.append(s_)
+                tree = (tree[0], tree[1], subs)
+                text = g.render(tree, style=dict(eol="\r\n", fold="75", lower=False, quote_all=False))
+                ctype, coll = "text/calendar", "/u/gcal%d/" % wi
+            g.features["whole:objects-without-uid"] += 1
+            st, h, _ = srv.put(coll, text, CONTENT_TYPE=ctype)
+            ctx.case(("generated-uid", text), nontrivial=True)
+            ctx.count("put-whole-nouid:%d" % st)
+            replay = dict(step="PUT whole collection with objects lacking a UID, then every stored object: GET, cold GET, PUT again", path=coll, upload=text)
+            if st != 201:
+                fail("gu-refused", "a whole-collection upload with objects lacking a UID is refused (%s)" % st, replay)
+                continue
+            items = sweep_items(ctx, srv, coll, fail, replay, ctype)
+            exp = collections.Counter()
+            n_objects = 0
+            for top in X.parse_tree(X.strip_controls(text)):
+                if top[0] == "VCARD":
+                    X.facts_tree(X.clean_tree(top), (), exp)
+                    n_objects += 1
+                else:
+                    mains = [s_ for s_ in top[2] if s_[0] in ("VEVENT", "VTODO", "VJOURNAL")]
+                    n_objects += len(set((main_uid(("x", [], [s_])) or id(s_)) for s_ in mains))
+                    for s_ in mains:
+                        X.facts_tree(X.clean_tree(s_), (), exp)
+            act = collections.Counter()
+            for t_ in items.values():
+                for top in X.parse_tree(t_):
+                    if top[0] == "VCARD":
+                        X.facts_tree(top, (), act)
+                    else:
+                        for s_ in top[2]:
+                            if s_[0] in ("VEVENT", "VTODO", "VJOURNAL"):
+                                X.facts_tree(s_, (), act)
+            if len(items) != n_objects:
+                fail("gu-count", "%d objects uploaded, %d stored" % (n_objects, len(items)), replay)
+            if without_uid_facts(exp) != without_uid_facts(act):
+                fail("gu-facts", "objects of a whole-collection upload come back altered (UIDs aside): %s" % json_short(
+                    X.diff_facts(without_uid_facts(exp), without_uid_facts(act))), dict(replay, stored=list(items.values())[:4]))
+            kept_exp = sorted(k[3] for k in exp.elements() if k[1] == "UID" and k[3] != ("text", ""))
+            kept_act = sorted(k[3] for k in act.elements() if k[1] == "UID")
+            if any(u not in kept_act for u in kept_exp):
+                fail("gu-kept", "an uploaded UID was replaced: uploaded %s, stored %s" % (kept_exp, kept_act), replay)
+    finally:
+        srv.close()
+
+
+# ---------------------------------------------------------------------------------------------------------------
+# read faults: the file of an accepted object cannot be opened
+# ---------------------------------------------------------------------------------------------------------------
+def _read_faults(ctx, g):
+    """An accepted object whose file cannot be read (EACCES after a restore, EIO, ...) may make a request FAIL, but must never be
+    served as absent: no 404 for its GET, no successful export / REPORT / listing that silently lacks it, no altered text."""
+    import errno
+    import os
+    from radicale.storage.multifilesystem import get as storage_get
+    rng = ctx.rng
+    first = {}
+
+    def fail(kind, what, replay):
+        if kind not in first:
+            first[kind] = True
+            ctx.violation(what, replay)
+    srv = new_server()
+    try:
+        for kind, coll, ctype in (("cal", "/u/fc/", "text/calendar"), ("card", "/u/fa/", "text/vcard")):
+            (srv.mkcalendar if kind == "cal" else srv.mkaddressbook)(coll)
+            stored = {}
+            for i in range(ctx.n(3, 8)):
+                uid = "rf-%s-%d" % (g.ident(4), i)
+                tree = g.card_object(uid) if kind == "card" else g.cal_object(uid)
+                text = g.render(tree, style=dict(eol="\r\n", fold="75", lower=False, quote_all=False))
+                path = coll + "o%d.%s" % (i, "vcf" if kind == "card" else "ics")
+                if srv.put(path, text)[0] == 201:
+                    st, h, b = srv.request("GET", path)
+                    stored[path] = (b.decode("utf-8"), h.get("ETag"), uid)
+            for target in rng.sample(sorted(stored), min(len(stored), ctx.n(2, 4))):
+                fpath = os.path.join(srv.folder, "collection-root", *target.strip("/").split("/"))
+                for err in (errno.EACCES, errno.EIO):
+                    def faulty_open(file, mode="r", *args, _fpath=fpath, _err=err, **kwargs):
+                        if os.path.abspath(file) == os.path.abspath(_fpath) and "r" in mode:
+                            raise OSError(_err, os.strerror(_err), file)       # PermissionError for EACCES
+                        return open(file, mode, *args, **kwargs)
+                    storage_get.open = faulty_open
+                    try:
+                        text, etag, uid = stored[target]
+                        replay = dict(step="objects stored; then open() of the file of %s fails with %s; then the request" % (target, errno.errorcode[err]),
+                                      coll=coll, target=target, errno=errno.errorcode[err], stored=text)
+                        ctx.case(("read-fault", kind, errno.errorcode[err], target), nontrivial=True)
+                        st, h, b = srv.request("GET", target)
+                        ctx.count("read-fault:%s:GET-item:%d" % (errno.errorcode[err], st))
+                        if st == 404 or (st == 200 and b.decode("utf-8") != text):
+                            fail("rf-get", "open() of a stored object's file fails with %s: GET answers %s%s" % (
+                                errno.errorcode[err], st, " (the object is reported absent)" if st == 404 else " with other content"), dict(replay, request="GET " + target))
+                        st, h, b = srv.request("GET", coll)
+                        if st == 200 and ("UID:" + uid) not in "".join(l + "\n" for l in X.unfold(b.decode("utf-8"))):
+                            fail("rf-export", "open() of a stored object's file fails with %s: the export succeeds without the object" % errno.errorcode[err],
+                                 dict(replay, request="GET " + coll))
+                        for label, body in (("query", query_body(kind)), ("multiget", multiget_body(kind, [target]))):
+                            st, data = report_data(srv, coll, kind, body)
+                            if st == 207 and target not in data:
+                                fail("rf-report", "open() of a stored object's file fails with %s: REPORT %s succeeds without the object" % (errno.errorcode[err], label),
+                                     dict(replay, request="REPORT %s %s" % (label, coll)))
+                            elif st == 207 and data[target][0] != xml_eol(text):
+                                fail("rf-report", "REPORT %s serves other text under a read fault" % label, dict(replay, request="REPORT " + label))
+                        st, ms = srv.propfind(coll, depth="1")
+                        if st == 207 and target not in ms:
+                            fail("rf-list", "open() of a stored object's file fails with %s: PROPFIND Depth:1 succeeds without the object" % errno.errorcode[err],
+                                 dict(replay, request="PROPFIND " + coll))
+                    finally:
+                        if "open" in vars(storage_get):
+                            del storage_get.open
+    finally:
+        srv.close()
